@@ -47,6 +47,15 @@ def recursive_at(r, left=True):
     return False
 
 
+# grammars (4-5 variables) in which a variable is nullable only indirectly and is requested a second time, at the same
+# position, by a state that is predicted after its completion -- out of reach of the exhaustive layers
+CATALOGUE = [(4, 2, ((0, (1, 4)), (0, (2,)), (2, (1, 5)), (1, (3, 3)), (3, ()))),          # S -> A a | B; B -> A b; A -> C C; C -> eps
+             (4, 2, ((0, (2,)), (0, (1, 4)), (2, (1, 5)), (1, (3,)), (3, ()))),            # S -> B | A a; B -> A b; A -> C; C -> eps
+             (4, 2, ((0, (1, 2)), (2, (1, 5)), (2, (4,)), (1, (3, 3)), (3, ()), (3, (4,)))),  # S -> A B; B -> A b | a; A -> C C; C -> eps | a
+             (3, 2, ((0, (1, 3)), (0, (2,)), (2, (1, 4)), (1, (1, 1)), (1, ()))),          # S -> A a | B; B -> A b; A -> A A | eps
+             (4, 2, ((0, (1, 0)), (0, (2,)), (2, (1, 5)), (1, (3,)), (3, ()), (0, (4,))))]    # S -> A S | B | a; B -> A b; A -> C; C -> eps
+
+
 def fcfg_text(case):
     vn, tn = G.names(case)
     v, t, prods = case
@@ -69,11 +78,15 @@ class C15(CFGProp):
 
     def layers(self, tier, seed):
         two = ["natural@plain", "1@plain"]
+        cat = Layer("catalogue: indirectly nullable variable requested twice", lambda: iter(CATALOGUE),
+                    policies=["natural@plain"] + ["%d@plain" % i for i in range(1, 12)])
         if tier == "quick":
-            return [Layer("CFG(2,2,2,<=3)", lambda: G.cfg_cases(2, 2, 2, 0, 3), rep=G.is_rep,
+            return [cat,
+                    Layer("CFG(2,2,2,<=3)", lambda: G.cfg_cases(2, 2, 2, 0, 3), rep=G.is_rep,
                           policies=two + ["2@plain"]),
                     Layer("CFG(2,2,3,<=2)", lambda: G.cfg_cases(2, 2, 3, 0, 2), rep=G.is_rep, policies=two)]
-        return [Layer("CFG(2,2,2,<=3)", lambda: G.cfg_cases(2, 2, 2, 0, 3), rep=None, policies=two + ["2@plain", "3@plain"]),
+        return [cat,
+                Layer("CFG(2,2,2,<=3)", lambda: G.cfg_cases(2, 2, 2, 0, 3), rep=None, policies=two + ["2@plain", "3@plain"]),
                 Layer("CFG(2,2,3,<=2)", lambda: G.cfg_cases(2, 2, 3, 0, 2), rep=None, policies=two),
                 Layer("CFG(2,2,2,4)", lambda: G.cfg_cases(2, 2, 2, 4, 4), rep=G.is_rep, policies=two),
                 Layer("CFG(3,2,2,<=3)", lambda: G.cfg_cases(3, 2, 2, 0, 3), rep=G.is_rep, policies=two),
@@ -120,6 +133,18 @@ class C15(CFGProp):
                 why = RT.validate_derivation(m, d.value, gram, w, root, leftmost=(side == "leftmost"))
                 ctx.expect(why is None, "C15.%s.%s" % (name, side), word=w, why=why,
                            derivation=repr(d.value)[:300])
+            # the listing of every sub-tree (asked after the root's) and a second listing of the root
+            for sub in list(tree.sons)[:3]:
+                sw = RT.frontier(m, sub)
+                d2 = ctx.call(getattr(sub, meth))
+                if sw is not None and ctx.returns(d2, "C15.%s.%s" % (name, side), word=w, subtree=repr(sub.value)):
+                    why = RT.validate_derivation(m, d2.value, gram, sw, RT.sym_of(m, sub.value), leftmost=(side == "leftmost")) \
+                        if RT.sym_of(m, sub.value)[0] == "V" else None
+                    ctx.expect(why is None, "C15.%s.%s" % (name, side), word=w, subtree=repr(sub.value), why=why,
+                               derivation=repr(d2.value)[:300])
+            d3 = ctx.call(getattr(tree, meth))
+            if d.ok and d3.ok:
+                ctx.expect(repr(d.value) == repr(d3.value), "C15.%s.%s" % (name, side), word=w, why="second listing differs")
         return True
 
     def check(self, case, ref, ctx):
